@@ -1,6 +1,7 @@
 package main
 
 import (
+	"math"
 	"fmt"
 	"math/rand/v2"
 	"reflect"
@@ -247,6 +248,31 @@ func retainCase(r *rand.Rand) {
 	}
 }
 
+// dumps between validations: the dumper shares the builder pool with the validators; a value the standard
+// encoder rejects (NaN, func) takes the dumper's fallback path
+type dumpProbe struct {
+	A string
+	F float64
+	G func()
+	N *dumpProbe
+}
+
+func dumpAside(r *rand.Rand) {
+	defer func() { _ = recover() }()
+	v := &dumpProbe{A: randString(r, 4), F: pick(r, []float64{0, 1.5, math.NaN(), math.Inf(1)})}
+	if chance(r, 0.3) {
+		v.G = func() {}
+	}
+	if chance(r, 0.3) {
+		v.N = &dumpProbe{F: math.NaN()}
+	}
+	if chance(r, 0.5) {
+		_ = valid.GetDumpStructStr(v)
+	} else {
+		_ = valid.GetDumpStructStrForJson(v)
+	}
+}
+
 // ---- cache implementations -------------------------------------------------------------------------
 
 type missCache struct{}
@@ -291,6 +317,9 @@ func init() {
 		Gen: func(r *rand.Rand, tier string) Case {
 			if chance(r, 0.1) {
 				retainCase(r)
+			}
+			if chance(r, 0.05) {
+				dumpAside(r)
 			}
 			switch r.IntN(9) {
 			case 8:
